@@ -100,7 +100,7 @@ class C12(Check):
                 continue
             out.append({"kind": kind, "cls": cls, "target": target, "children": children, "clear": clear,
                         "geom": {"n": 4, "g": [1, -2, 3, 0, 5, -4, 2, 7, 1, 3]}, "vals": [3, None, -2, 8, 1, 4],
-                        "edits": (["dh_remove", "rename"] if kind == "dhgroup" else
+                        "edits": (["dh_remove", "rename", "dh_remove_hole"] if kind == "dhgroup" else
                                   ["values_rw", "metadata_nested", "rename"] if target != "same"
                                   else ["metadata_nested", "values_rw"])})
             if kind == "dhgroup" and children:
@@ -119,7 +119,7 @@ class C12(Check):
             "geom": st.fixed_dictionaries({"n": st.integers(2, 6), "g": st.lists(st.integers(-9, 9), min_size=3, max_size=10)}),
             "vals": st.lists(st.one_of(st.integers(-20, 20), st.none()), min_size=0, max_size=10),
             "edits": st.lists(st.sampled_from(["values", "values_rw", "vertices", "metadata", "metadata_nested", "rename", "pg",
-                                               "dh_remove"]), max_size=3),
+                                               "dh_remove", "dh_remove_hole"]), max_size=3),
             "source_mode": st.sampled_from(["r+", "r+", "r"]), "defer_source_read": st.booleans(),
         }).map(lambda d: {**{k: v for k, v in d.items() if k != "kind_cls"}, "kind": d["kind_cls"][0], "cls": d["kind_cls"][1]})
 
@@ -336,6 +336,7 @@ class C12(Check):
                 res.label("shares-memory:" + alias)
             # (4) edits of the copy
             n_edits = 0
+            self.source_entity = subject
             for edit in p["edits"]:
                 done = self.apply_edit(edit, new, p)
                 if done is None:
@@ -469,6 +470,18 @@ class C12(Check):
                 arr = target.values  # read, modify in place, assign back: the usual user pattern
                 arr[0] = "zz" if arr.dtype.kind == "U" else (arr[0] + 3 if arr[0] == arr[0] else 1.0)
                 target.values = arr
+                return True
+            if edit == "dh_remove_hole":
+                # a hole is removed from the COPY, then a hole of the SOURCE is saved again (a no-op by itself): the
+                # source group must still list all its holes, live and after re-open
+                if p["kind"] != "dhgroup" or not p["children"] or p.get("source_mode") == "r":
+                    return None
+                holes = [c for c in new.children if hasattr(c, "surveys")]
+                src_holes = [c for c in self.source_entity.children if hasattr(c, "surveys")] if self.source_entity else []
+                if len(holes) < 2 or not src_holes:
+                    return None
+                new.workspace.remove_entity(holes[0])
+                self.source_entity.workspace.save_entity(src_holes[-1])
                 return True
             if edit == "dh_remove":
                 if p["kind"] != "dhgroup" or not p["children"]:
